@@ -19,6 +19,11 @@ structure D where
   armed : List Id := []
   live : List Id := []
   lazy : List Id := []
+  /-- future mode (`cfg … fut`): operations are `Submit` futures of compio-runtime, polled only when woken -/
+  fut : Bool := false
+  fst : Id → FutState := fun _ => .idle
+  /-- wake count of the future's waker when it was last polled -/
+  seen : Id → Nat := fun _ => 0
   /-- the model hit a Rust panic / impossible event: every further line of the case reports it -/
   fault : Option String := none
 
@@ -51,7 +56,7 @@ def D.showDone (d : D) (id : Id) (r : Res) : String :=
   s!"{showRes r}:{data}"
 
 /-- the harness pops every outstanding non-lazy key after each driver call -/
-def D.scan (d : D) : D × String :=
+def D.scanKeys (d : D) : D × String :=
   let rec go (d : D) (ids : List Id) (keep : List Id) (acc : List String) : D × List String :=
     match ids with
     | [] => ({ d with live := keep.reverse }, acc.reverse)
@@ -124,25 +129,55 @@ def D.settle (d : D) : Nat → D
       | (d', "fault") => d'
       | (d', _) => d'.settle n
 
-def D.push (d : D) (id : Id) (kind : OpKind) : D × String :=
-  let os := { d.getOs with ops := upd d.getOs.ops id (some kind) }
-  let d := d.setOs os
+/-- the driver's `push_with_extra` for operation `id` (its kind is registered in the OS model):
+    `some r` = `PushEntry::Ready` -/
+def D.pushRes (d : D) (id : Id) : D × Option Res :=
   if d.iour then
-    match kind with
-    | .job _ => ({ d with ring := d.ring.pushBlocking id }, "pending")
+    match d.getOs.ops id with
+    | some (.job _) => ({ d with ring := d.ring.pushBlocking id }, none)
     | _ =>
       let (d1, e1) := if d.ring.sq.length ≥ d.ring.sqCap then d.enterAll d.ring.sq else (d, ⟨0, []⟩)
       match d1.ring.pushOp id [e1] with
-      | (r, .ok) => ({ d1 with ring := r }, "pending")
-      | (r, .spin) => ({ d1 with ring := r, fault := some "spin" }, "fault")
+      | (r, .ok) => ({ d1 with ring := r }, none)
+      | (r, .spin) => ({ d1 with ring := r, fault := some "spin" }, none)
   else
     let (dec, os') := decide d.ps.world id
     let ps := { d.ps with world := os' }
     match PollDriver.push d.ops ps id dec with
-    | (s, none) => ({ d with ps := s }, "pending")
-    | (s, some r) =>
-      let d' := { d with ps := s }
-      (d', s!"ready {d'.showDone id r}")
+    | (s, r) => ({ d with ps := s }, r)
+
+/-- `Submit::poll` of the future of operation `id` with its own waker -/
+def D.futPoll (d : D) (id : Id) : D × PollOut :=
+  match submitPoll D.pushRes D.keys D.setKeys d (d.fst id) id id with
+  | (d', st', out) => ({ d' with fst := upd d'.fst id st', seen := upd d'.seen id (d'.keys.woken id) }, out)
+
+/-- future mode: like an executor, poll exactly the futures whose waker was woken since their last poll -/
+def D.scanFuts (d : D) : D × String :=
+  let rec go (d : D) (ids : List Id) (keep : List Id) (acc : List String) : D × List String :=
+    match ids with
+    | [] => ({ d with live := keep.reverse }, acc.reverse)
+    | id :: rest =>
+      if d.keys.woken id > d.seen id then
+        match d.futPoll id with
+        | (d1, .ready r) => go d1 rest keep (s!"{id}={d1.showDone id r}:w{d1.keys.woken id}" :: acc)
+        | (d1, _) => go d1 rest (id :: keep) acc
+      else go d rest (id :: keep) acc
+  let (d', items) := go d d.live [] []
+  (d', if items.isEmpty then "-" else ",".intercalate items)
+
+def D.scan (d : D) : D × String := if d.fut then d.scanFuts else d.scanKeys
+
+def D.push (d : D) (id : Id) (kind : OpKind) : D × String :=
+  let os := { d.getOs with ops := upd d.getOs.ops id (some kind) }
+  let d := d.setOs os
+  if d.fut then
+    match d.futPoll id with
+    | (d', .ready r) => (d', s!"ready {d'.showDone id r}")
+    | (d', _) => (d', "pending")
+  else
+    match d.pushRes id with
+    | (d', none) => (d', "pending")
+    | (d', some r) => (d', s!"ready {d'.showDone id r}")
 
 /-- thread-pool jobs finish (gate opened / ReadAt on the polling driver) -/
 def D.finishJob (d : D) (id : Id) : D :=
@@ -165,6 +200,12 @@ def stepLine (d : D) (w : List String) : D × String :=
     | some c =>
       let iour := drv == "iour"
       ({ iour := iour, cap := c, ring := { sqCap := nextPow2 c }, os := { iour := iour } }, "cfg")
+    | none => (d, "bad-op")
+  | ["cfg", drv, cap, "fut"] =>
+    match cap.toNat? with
+    | some c =>
+      let iour := drv == "iour"
+      ({ iour := iour, cap := c, ring := { sqCap := nextPow2 c }, os := { iour := iour }, fut := true }, "cfg")
     | none => (d, "bad-op")
   | ["rpipe", c] => match c.toNat? with
     | some c => ((d.setOs (setChan d.getOs c { kind := .rpipe })) |> fun d => { d with chans := d.chans ++ [c] }, "ok")
@@ -225,7 +266,7 @@ def stepLine (d : D) (w : List String) : D × String :=
       | p => withScan p
     | _, _ => (d, "bad-op")
   | ["waker", k] => match k.toNat? with
-    | some id => (d.setKeys (d.keys.setWaker id id), "ok")
+    | some id => if d.fut then (d, "ok") else (d.setKeys (d.keys.setWaker id id), "ok")
     | none => (d, "bad-op")
   | ["poll"] => withScan (d.pollOnce true)
   | ["settle"] => withScan (d.settle 64, "settled")
@@ -234,6 +275,12 @@ def stepLine (d : D) (w : List String) : D × String :=
     | none => (d, "bad-op")
   | ["pop", k] => match k.toNat? with
     | some id =>
+      if d.fut then
+        if !(d.lazy.contains id) then (d, "none") else
+        match d.futPoll id with
+        | (d1, .ready r) => ({ d1 with lazy := d1.lazy.erase id }, s!"{id}={d1.showDone id r}:w{d1.keys.woken id}")
+        | (d1, _) => (d1, "none")
+      else
       match d.keys.pop id with
       | (ks, some r) =>
         let d1 := d.setKeys ks
@@ -259,11 +306,15 @@ def stepLine (d : D) (w : List String) : D × String :=
       let d0 := { d with live := d.live.erase id, lazy := d.lazy.erase id }
       if d.iour then
         match d0.ring.keys.pop id with
-        | (ks, some r) => let d1 := d0.setKeys ks; withScan (d1, s!"ready {d1.showDone id r}")
+        | (ks, some r) =>
+          let d1 := d0.setKeys ks
+          withScan (d1, if d.fut then "none" else s!"ready {d1.showDone id r}")
         | (_, none) => withScan ({ d0 with ring := d0.ring.cancel id }, "none")
       else
         match cancelDrop d0.ps id with
-        | (s, some r) => let d1 := { d0 with ps := s }; withScan (d1, s!"ready {d1.showDone id r}")
+        | (s, some r) =>
+          let d1 := { d0 with ps := s }
+          withScan (d1, if d.fut then "none" else s!"ready {d1.showDone id r}")
         | (s, none) => withScan ({ d0 with ps := s }, "none")
     | none => (d, "bad-op")
   | _ => (d, "bad-op")
